@@ -94,6 +94,9 @@ type vf18Sandbox struct {
 	baseVer string // version current-manifest named when the journal of the last apply was written
 	baseRes map[int]string // what each artifact path of that apply resolved to (bytes read through the path)
 	clean   bool           // no operator edit since then
+	planted string         // directory planted to make saveCurrentManifest fail (fail label 36)
+	order35 string         // "" unknown / "ok" / "BAD": did current-manifest.yaml land before the completed journal?
+	inoFd   int
 	aux     [vf18NPaths]string
 }
 
@@ -110,6 +113,7 @@ type vf18Fake struct {
 	reloadSeen [2]bool
 	vppStopped bool
 	vppStarted bool
+	resumable  bool // the journal found by this apply is an interrupted upgrade (ForceRetry keeps its snapshot)
 }
 
 func (f *vf18Fake) off() int {
@@ -197,8 +201,21 @@ func (f *vf18Fake) Run(ctx context.Context, name string, args ...string) ([]byte
 		f.vppStopped, f.vppStarted = true, false
 	case 5:
 		f.vppStarted = true
+		// No wall-clock race: the wait that follows can only time out when the case ASKS for "never active"
+		// (then any stall still yields the same failure); otherwise the first poll answers "active" and the
+		// deadline is far away.
+		if f.fail[6+f.off()] {
+			f.sb.runner.VPPActiveWait = 15 * time.Millisecond
+		} else {
+			f.sb.runner.VPPActiveWait = 30 * time.Second
+		}
 	case 8:
 		f.writeHealth()
+		if f.flavour() == "stale" { // the only flavour whose outcome IS the timeout
+			f.sb.runner.HealthTimeout = 25 * time.Millisecond
+		} else {
+			f.sb.runner.HealthTimeout = 30 * time.Second
+		}
 	}
 	return nil, nil
 }
@@ -237,6 +254,28 @@ func (f *vf18Fake) Stage(step, total int, name string) {
 		lab = 40 + step
 	}
 	f.point(lab)
+	if lab == 25 && f.fail[36] && !f.resumable {
+		// fail label 36: make saveCurrentManifest (the statement after Snapshot) fail through the real code:
+		// its rename target inside the snapshot directory is occupied by a non-empty directory.  Snapshot itself
+		// never touches that name.  The harness removes the directory again after the operation, which leaves
+		// exactly what a death between Snapshot and saveCurrentManifest leaves: metadata, no saved manifest.
+		if from, err := f.sb.runner.discoverCurrentVersion(context.Background()); err == nil {
+			d := filepath.Join(f.sb.runner.RollbackRoot, from, "current-manifest.yaml")
+			if _, err := os.Lstat(d); err == nil {
+				// a copy saved by an earlier upgrade from the same version: put it aside, it comes back afterwards
+				_ = os.Rename(d, d+".verif-aside")
+			}
+			if os.MkdirAll(d, 0o755) == nil && os.WriteFile(filepath.Join(d, "keep"), []byte("x"), 0o644) == nil {
+				f.sb.planted = d
+			}
+		}
+	}
+	if lab == 32 {
+		f.sb.watch35()
+	}
+	if lab == 33 {
+		f.sb.check35()
+	}
 	if lab == 29 {
 		f.sb.installObstacles(f.ob)
 	}
@@ -258,6 +297,55 @@ func (f *vf18Fake) Warn(msg string) {
 		f.flowR = true
 	case strings.HasPrefix(msg, "health failed"):
 		f.point(53)
+	}
+}
+
+// Label 35 (death between WriteCurrentManifest and the "completed" phase write) has no injectable call, so the
+// harness builds that state itself (die at Stage 12, then run WriteCurrentManifest).  That is only right while
+// ApplyOne commits in this order; the order is therefore OBSERVED on every apply that passes stage 12: inotify
+// records the renames landing in the state directory between Stage(12) and Stage(13).
+func (sb *vf18Sandbox) watch35() {
+	sb.order35 = ""
+	fd, err := syscall.InotifyInit1(syscall.IN_NONBLOCK | syscall.IN_CLOEXEC)
+	if err != nil {
+		sb.order35 = "NOINOTIFY"
+		return
+	}
+	if _, err := syscall.InotifyAddWatch(fd, sb.runner.StateRoot, syscall.IN_MOVED_TO); err != nil {
+		_ = syscall.Close(fd)
+		sb.order35 = "NOINOTIFY"
+		return
+	}
+	sb.inoFd = fd
+}
+
+func (sb *vf18Sandbox) check35() {
+	if sb.inoFd <= 0 {
+		return
+	}
+	defer func() { _ = syscall.Close(sb.inoFd); sb.inoFd = 0 }()
+	buf := make([]byte, 8192)
+	n, _ := syscall.Read(sb.inoFd, buf)
+	var names []string
+	for off := 0; off+16 <= n; {
+		l := int(uint32(buf[off+12]) | uint32(buf[off+13])<<8 | uint32(buf[off+14])<<16 | uint32(buf[off+15])<<24)
+		name := strings.TrimRight(string(buf[off+16:off+16+l]), "\x00")
+		names = append(names, name)
+		off += 16 + l
+	}
+	im, ij := -1, -1
+	for i, nm := range names {
+		if nm == "current-manifest.yaml" && im < 0 {
+			im = i
+		}
+		if nm == "upgrade-state.json" {
+			ij = i
+		}
+	}
+	if im >= 0 && ij > im {
+		sb.order35 = "ok"
+	} else {
+		sb.order35 = "BAD:" + strings.Join(names, "+")
 	}
 }
 
@@ -296,12 +384,12 @@ func vf18NewSandbox(root string, key, wrong *ecdsa.PrivateKey, pubPEM []byte) (*
 		SystemdUnit:     "osvbng.service",
 		DropInRoot:      filepath.Join(root, "run", "systemd"),
 		PubKey:          filepath.Join(root, "keys", "cosign.pub"),
-		HealthTimeout:   25 * time.Millisecond,
+		HealthTimeout:   30 * time.Second, // set per daemon start by the fake, see vf18Fake.Run
 		PollInterval:    time.Millisecond,
-		StallLimit:      time.Second,
-		StateFileGrace:  10 * time.Millisecond,
-		VPPStopWait:     15 * time.Millisecond,
-		VPPActiveWait:   15 * time.Millisecond,
+		StallLimit:      30 * time.Second,
+		StateFileGrace:  30 * time.Second, // the state file is always written before the first poll
+		VPPStopWait:     30 * time.Second, // the fake answers "inactive" at the first poll
+		VPPActiveWait:   30 * time.Second, // set per vpp start by the fake
 		VPPPollInterval: time.Millisecond,
 	}
 	return sb, nil
@@ -909,15 +997,8 @@ func (sb *vf18Sandbox) doApply(tokens []string) string {
 	}
 	jPrior, _ := sb.journal()
 	resumable := vf18Resumable(jPrior)
-	afterSnapshot := fake.crash == 36
-	if afterSnapshot {
-		// label 36 exists only where ApplyOne takes a fresh snapshot of a non-interrupted box
-		fake.crash = 25
-		if resumable {
-			fake.crash = 0
-			afterSnapshot = false
-		}
-	}
+	fake.resumable = resumable
+	sb.order35 = "" 
 	opts := ApplyOptions{ForceRetry: kv["force"] == "1"}
 	if e := kv["exp"]; e != "-" && e != "" {
 		opts.ExpectedFrom = vf18Ver(e)
@@ -965,22 +1046,19 @@ func (sb *vf18Sandbox) doApply(tokens []string) string {
 			res = "harness-error"
 		}
 	}
-	if afterSnapshot && res == "crash" && fake.crashedAt == 25 {
-		// label 36: the process dies after Snapshot() returned and before saveCurrentManifest.  As for label
-		// 35 there is no injectable call in between: die at Stage 5 (journal "started", nothing of the stage
-		// has run), then run the stage's first statement with the real code.
-		st, err := ExtractTarball(tarPath)
-		fake.dead, fake.crash = false, 0 // the version fallback asks the (fake) binary
-		from, _ := sb.runner.discoverCurrentVersion(context.Background())
-		fake.dead = true
-		if err == nil {
-			if _, _, serr := Snapshot(sb.runner.RollbackRoot, from, st.Manifest.OsvbngVersion, st.Manifest); serr != nil {
-				res = "err" // Snapshot itself fails (unsupported kind): ApplyOne would have returned the error
-			}
-			_ = st.Cleanup()
-		} else {
-			res = "harness-error"
+	if sb.planted != "" {
+		_ = os.RemoveAll(sb.planted)
+		if _, err := os.Lstat(sb.planted + ".verif-aside"); err == nil {
+			_ = os.Rename(sb.planted+".verif-aside", sb.planted)
 		}
+		sb.planted = ""
+	}
+	if sb.inoFd > 0 {
+		_ = syscall.Close(sb.inoFd)
+		sb.inoFd = 0
+	}
+	if sb.order35 != "" && sb.order35 != "ok" {
+		res += "!commit-order:" + sb.order35
 	}
 	j, jid := sb.journal()
 	if j != nil && jid != jidBefore && !resumable {
@@ -1001,6 +1079,18 @@ func (sb *vf18Sandbox) doApply(tokens []string) string {
 	switch res {
 	case "ok":
 		mon, ver = "ok", "ok"
+		// every path this upgrade episode may have replaced (the baseline paths: the artifacts of the first
+		// attempt since the box was last not mid-upgrade) must be an artifact of THIS tarball: otherwise it can
+		// hold the bytes of an interrupted attempt at another version while success is reported
+		inTar := map[int]bool{}
+		for _, a := range arts {
+			inTar[a.p] = true
+		}
+		for p := range sb.base {
+			if !inTar[p] {
+				mon = "MIXED"
+			}
+		}
 		for _, a := range arts {
 			if now[a.p] != vf18ExpectedNew(a) {
 				mon = "MIXED"
